@@ -682,8 +682,18 @@ def literal_text(rep, prog, lit):
     me = g.params[0]
     ttb = prog.method('pgpy.types', 'PGPObject', 'text_to_bytes')
     wcodec = set()
-    for s in Interp(prog, Scenario(inline=noinline, args={ttb.params[-1]: Sym(ttb.params[-1], types={'str'}, nonnull=True)})).run(ttb):
-        m = re.match(r"^%s\.encode\((?:'([^']*)')?\)$" % re.escape(ttb.params[-1]), render(s.ret))
+    # the message text is converted by text_to_bytes(<text>) with no further argument (PGPMessage.new): other parameters take their defaults
+    tparams = [p_ for p_ in ttb.params if not (ttb.cls is not None and p_ == ttb.params[0] and not any(dotted(d) == 'staticmethod' for d in ttb.node.decorator_list))]
+    targs = {tparams[0]: Sym(tparams[0], types={'str'}, nonnull=True)}
+    dflts = ttb.node.args.defaults
+    for pn, d in zip([a.arg for a in ttb.node.args.args][len(ttb.node.args.args) - len(dflts):], dflts):
+        if pn != tparams[0]:
+            try:
+                targs[pn] = Const(ast.literal_eval(d))
+            except (ValueError, SyntaxError):
+                pass
+    for s in Interp(prog, Scenario(inline=noinline, args=targs)).run(ttb):
+        m = re.match(r"^%s\.encode\((?:'([^']*)')?\)$" % re.escape(tparams[0]), render(s.ret))
         wcodec.add(_codec_name(m.group(1)) if m else render(s.ret))
     want = {'t': 'latin-1', 'u': 'utf-8'}
     for fmt in ('t', 'u', 'b'):
